@@ -61,12 +61,15 @@ DIP_STUB_TEXT = unitkit.UNITS_STUB_TEXT + [
     "class attributes FloatNode.dtype / FloatType.dtype / IntegerNode.dtype / IntegerType.dtype and the names float/int/bool in dip.nodes.node_base, dip.datatypes.type_number, "
     "dip.solvers.numerical_solver, dip.nodes.node_unit are the symx stubs: numeric literals in DIP text are sentinel numerals that map to solver variables, the text-level code "
     "(regular expressions, line classification, hierarchy, branching) runs unchanged on ordinary text",
+    "every DIP parser object created by a scenario is kept alive until the scenario ends (parsers are named after id(self); a freed parser's id may be reused, which makes a later parse on top of its environment fail with 'Reference source alread exists' - an artefact of object lifetime, not of the text)",
 ]
 
 DIP_SRC = r'''
 from scinumtools.dip import DIP, Format
+_KEEP = []
 def dip_parse(text, base=None):
     with DIP(base) as p:
+        _KEEP.append(p)        # parser objects are named after id(self): a freed parser's id can be reused and then clashes in the source list of a base environment
         p.add_string(text)
         return p.parse()
 def outcome(fn):
